@@ -118,6 +118,10 @@ int xmp_smix_play_instrument(xmp_context opaque, int ins, int note, int vol, int
 		return -XMP_ERROR_INVALID;
 	}
 
+	if (mod->chn + chn >= XMP_MAX_CHANNELS) {
+		return -XMP_ERROR_INVALID;
+	}
+
 	if (note == 0) {
 		note = 60;		/* middle C note number */
 	}
@@ -146,6 +150,10 @@ int xmp_smix_play_sample(xmp_context opaque, int ins, int note, int vol, int chn
 	}
 
 	if (chn >= smix->chn || chn < 0 || ins >= smix->ins || ins < 0) {
+		return -XMP_ERROR_INVALID;
+	}
+
+	if (mod->chn + chn >= XMP_MAX_CHANNELS) {
 		return -XMP_ERROR_INVALID;
 	}
 
